@@ -1,6 +1,15 @@
 from . import rules_c09, rules_geom, rules_rep, inputs
 
 
+def self_controls(prog, facts):
+    from . import perturb
+    from spec import geometry as G
+
+    def rule(c, p2):
+        rules_c09.check_place_transitions(c, p2, inputs.make_interp(p2))
+    return perturb.run_controls([('play starts after g7',
+                                  lambda f: perturb.perturb_const(f, 'LAST_P2_PLACEMENT_MASK', 1 << G.sq('g', 7)), rule, 'C09.3')], facts)
+
 def run(ctx, prog, facts, tier):
     I = inputs.make_interp(prog, fuel=5000000)
     rules_geom.check_constants(ctx, prog, which=['P1_PLACEMENT_MASK', 'P2_PLACEMENT_MASK', 'LAST_P1_PLACEMENT_MASK',
